@@ -426,7 +426,7 @@ class Evaluator:
                 return {"True": True, "False": False, "None": None}[e.id]
             if e.id in self.externals:
                 x = self.externals[e.id]
-                return x if isinstance(x, Namespace) else ("pyfunc", x)
+                return x if isinstance(x, (Namespace, Obj)) else ("pyfunc", x)
             if e.id == "__file__":
                 return mod.path
             r = self.repo.resolve_name(mod.name, e.id)
@@ -554,6 +554,10 @@ class Evaluator:
                 return o[lo:hi:st]
             k = self._expr(e.slice, env, mod, cls)
             if isinstance(o, Obj):
+                if o.mod != "builtins":
+                    ok_, rv = self._obj_method(o, "__getitem__", [k])
+                    if ok_:
+                        return rv
                 raise Undecided("index of object")
             try:
                 return o[k]
